@@ -24,6 +24,8 @@ type hist struct {
 	br      [3]*bivariate.QuotientRing
 	ord     bivariate.Order
 
+	extraRings []*bivariate.QuotientRing // rings created by `quotient` ops (home index 3)
+
 	ek, uk, bk, ik []int // register keys in order of first assignment
 	es             map[int]ff.Element
 	us             map[int]*univariate.Polynomial
@@ -133,6 +135,11 @@ func (h *hist) showB(p *bivariate.Polynomial) string {
 	for i, r := range h.br {
 		if r != nil && r == p.RingPtr() {
 			home = i
+		}
+	}
+	for _, r := range h.extraRings {
+		if r == p.RingPtr() {
+			home = 3
 		}
 	}
 	return strconv.Itoa(home) + "#" + h.encB(p)
@@ -497,10 +504,26 @@ func (h *hist) step(line string) (out string) {
 			}
 		case k == 'p':
 			switch {
-			case contains([]string{"coefs", "nats", "ints", "str", "zero", "one"}, op):
+			case contains([]string{"coefs", "nats", "ints", "str", "zero", "one", "regs", "ideal"}, op):
 				R := h.ur[idx]
 				var p *univariate.Polynomial
 				switch op {
+				case "regs":
+					var cs []ff.Element
+					for _, k := range regNums(a0) {
+						cs = append(cs, h.es[k])
+					}
+					p = R.Polynomial(cs)
+				case "ideal":
+					var gs []*univariate.Polynomial
+					for _, k := range regNums(a0) {
+						gs = append(gs, h.us[k])
+					}
+					id, err := R.NewIdeal(gs...)
+					if err != nil {
+						return "err " + kindOf(err)
+					}
+					p = id.Generator()
 				case "coefs":
 					p = h.decU(R, a0)
 				case "nats":
@@ -597,10 +620,19 @@ func (h *hist) step(line string) (out string) {
 			}
 		case k == 'q':
 			switch {
-			case contains([]string{"map", "nats", "ints", "str", "zero"}, op):
+			case contains([]string{"map", "nats", "ints", "str", "zero", "regs"}, op):
 				R := h.br[idx]
 				var p *bivariate.Polynomial
 				switch op {
+				case "regs":
+					m := map[[2]uint]ff.Element{}
+					if a0 != "" && a0 != "-" {
+						for _, tr := range strings.Split(a0, "/") {
+							pp := strings.Split(tr, ":")
+							m[[2]uint{u(pp[0]), u(pp[1])}] = h.es[regNum(pp[2])]
+						}
+					}
+					p = R.Polynomial(m)
 				case "map":
 					p = R.Polynomial(h.decBmap(a0))
 				case "nats":
@@ -880,6 +912,13 @@ func (h *hist) step(line string) (out string) {
 			if err := id.ReduceBasis(); err != nil {
 				return "err " + kindOf(err)
 			}
+			return "ok"
+		case "quotient":
+			qr, err := h.br[0].Quotient(id)
+			if err != nil {
+				return "err " + kindOf(err)
+			}
+			h.extraRings = append(h.extraRings, qr)
 			return "ok"
 		case "obs":
 			return "obs " + flagsStr(id) + " gens=" + h.showGens(id.Generators())
